@@ -14,7 +14,7 @@ ROOT = os.path.dirname(os.path.dirname(os.path.abspath(__file__)))
 REPO = os.environ.get("VERIF_REPO", "/repo")
 sys.path.insert(0, REPO)
 sys.path.insert(0, ROOT)
-sys.setrecursionlimit(20000)
+# the default recursion limit is kept: it is part of the behaviour users see (RecursionError -> fallback)
 warnings.simplefilter("ignore")
 
 
@@ -25,7 +25,12 @@ def main() -> None:
     except Exception:
         pass
     out = os.fdopen(os.dup(1), "w")
+    if not os.environ.get("VERIF_DEBUG"):
+        devnull = os.open(os.devnull, os.O_WRONLY)
+        os.dup2(devnull, 2)  # the implementation logs and prints a lot
     os.dup2(2, 1)  # anything the implementation prints goes to stderr
+    import logging
+    logging.disable(logging.CRITICAL)
     sys.stdout = sys.stderr
     cache: dict = {}
     for line in sys.stdin:
